@@ -284,6 +284,19 @@ theorem unknown_prefix_kept (givenRw givenRo : Option Bytes) (deep : Bool) :
 example : mkUnknownNode none (some (roPrefix ++ [120, 58, 121])) true =
     { error := none, rw := none, ro := some (immPrefix ++ [120, 58, 121]) } := by decide
 
+/-- Known finding `ro-slot-unprefixed-writecap-in-unknownnode` (true of the code and of the model):
+next to an rw_uri of an unknown format, an UNPREFIXED known write cap in the ro slot is accepted (its
+`from_string` has no error), the node marks it `ro.`, `strip_prefix_for_ro` (what a directory stores)
+removes the mark again, and `create_from_cap(None, stored)` — a reader of the directory — builds a
+writeable mutable node.  `unknown_prefix_kept` is about the prefix the node keeps; it does not (and
+cannot) say the marked cap is really read-only. -/
+theorem ro_slot_unprefixed_writecap_counterexample :
+    let w := filePrefix .ssk ++ List.replicate 26 97 ++ [58] ++ List.replicate 52 97
+    mkUnknownNode (some [120, 58, 121]) (some w) false = { error := none, rw := some [120, 58, 121], ro := some (roPrefix ++ w) } ∧
+    stripPrefixForRo (roPrefix ++ w) false = w ∧
+    (createFromCap none (some w) false).flags = some (false, true) ∧
+    (createFromCap none (some (roPrefix ++ w)) false).flags = none := by decide
+
 /-- `strip_prefix_for_ro` removes `imm.` only in a deep-immutable context, where the context implies it -/
 theorem strip_prefix_keeps_imm (ro : Bytes) (h : startsWith immPrefix ro = true) : stripPrefixForRo ro false = ro := by
   simp [stripPrefixForRo, h]
